@@ -136,7 +136,8 @@ MNext ==
                  THEN \E ms \in {Matches(S1, m1.d.t, res.log, res.blank)} :
                         /\ ok' = (ms # {})
                         /\ IF ms = {} THEN S' = S1
-                           ELSE LET mk == CHOOSE x \in ms : \A y \in ms : Cardinality(x[1].V) <= Cardinality(y[1].V)
+                           ELSE LET minV == {x \in ms : \A y \in ms : Cardinality(x[1].V) <= Cardinality(y[1].V)}
+                                    mk == CHOOSE x \in minV : \A y \in minV : x[1].p <= y[1].p
                                     c == mk[1]
                                 IN S' = [S1 EXCEPT !.above = c.above, !.order = c.order, !.blanked = res.blank, !.wasCut = S1.wasCut \/ IsCut(S1, c),
                                                    !.bars = LET bs == [bb \in DOMAIN S1.bars |-> IF bb \in c.V THEN [S1.bars[bb] EXCEPT !.static = FALSE, !.vis = FALSE]
